@@ -1,10 +1,12 @@
 /-
 C35 — property theorems: for EVERY discipline, maxsize and op sequence (put / put_nowait / get / get_nowait /
 task_done / join with or without deadlines, fire-next-timer, cancel, same-iteration races).
+Last section (`multi_…`): the same clauses for histories with compound ops — several calls made back-to-back inside
+one loop iteration, then one drain (`Multi.lean`) — including the states *between* the calls of an iteration.
 `accepted`, `delivered`, `done` are history variables of the model (tied to the implementation by wrapping
 `_put` / `_get` in the harness).
 -/
-import TornadoModel.C35.Refine5
+import TornadoModel.C35.MultiLemmas
 namespace TornadoModel.C35
 open TornadoModel.C33 (FState Ev Timer isPend)
 
@@ -315,5 +317,165 @@ example : (run (init .prio 1) [.put 3 none, .put 1 (some 9), .join (some 2), .ge
       .raceTaskDone, .taskDone]).2.map (fun o => (o.res, o.evs)) =
     [(.unit, [(0, .result 0)]), (.unit, []), (.unit, []), (.unit, [(1, .result 0), (3, .result 1)]), (.val 3, []),
      (.unit, []), (.unit, [(2, .timeout)]), (.valueError, [])] := by decide
+
+/-! ### compound ops: several calls inside ONE loop iteration, then one drain (`Multi.lean`)
+
+`run2` extends `run` by the op `multi [c₁,…,cₙ]` = `call c₁ ; … ; call cₙ ; settle`.  Between the calls no
+done-callback has run: `_finished._waiters` still holds waiters that were already woken, timer handles of settled
+futures are still scheduled, due timers have not fired.  The clauses above hold for these histories too, at op
+boundaries *and* between the calls of an iteration. -/
+
+abbrev after2 (d : Disc) (m : Nat) (ops : List Op2) : St := (run2 (init d m) ops).1
+
+/-- a state in the middle of a loop iteration: after the history `ops` and the calls `cs`, before the drain -/
+abbrev inside (d : Disc) (m : Nat) (ops : List Op2) (cs : List Call) : St := (calls (after2 d m ops) cs).1
+
+/-- the histories of `run` are exactly the `run2` histories without compound ops: all theorems above are
+statements about that sub-language -/
+theorem multi_extends (d : Disc) (m : Nat) (ops : List Op) :
+    after2 d m (ops.map .prim) = after d m ops ∧
+    (run2 (init d m) (ops.map .prim)).2 = (run (init d m) ops).2.map .prim := by
+  simp only [after2, after, run2_prim, and_self]
+
+theorem multi_inv_after (d : Disc) (m : Nat) (ops : List Op2) : Inv (after2 d m ops) :=
+  inv_run2 (inv_init d m) ops
+
+/-- the invariant also holds after every call inside an iteration (before anything of the drain has happened) -/
+theorem multi_inv_inside (d : Disc) (m : Nat) (ops : List Op2) (cs : List Call) : Inv (inside d m ops cs) :=
+  (calls_good (multi_inv_after d m ops) cs).1
+
+theorem frame_call (s : St) (c : Call) : Frame s (call s c).1 := by
+  cases c with
+  | put x d => exact frame_put s x d
+  | putNowait x =>
+    have hf := putNowait_frame s x
+    simp only [call]
+    cases hpn : putNowait s x <;> rw [hpn] at hf <;> exact hf
+  | get d => exact frame_get s d
+  | getNowait =>
+    have hf := getNowait_frame s
+    simp only [call]
+    cases hgn : getNowait s <;> rw [hgn] at hf <;> exact hf
+  | taskDone => exact frame_taskDone s _
+  | join d => exact frame_join s d
+  | cancel w => exact frame_cancel s w
+
+theorem frame_calls (s : St) (cs : List Call) : Frame s (calls s cs).1 := by
+  induction cs generalizing s with
+  | nil => exact ⟨rfl, rfl⟩
+  | cons c cs ih => simp only [calls]; exact Frame.trans (frame_call s c) (ih _)
+
+theorem frame_run2 (s : St) (ops : List Op2) : Frame s (run2 s ops).1 := by
+  induction ops generalizing s with
+  | nil => exact ⟨rfl, rfl⟩
+  | cons op ops ih =>
+    simp only [run2]
+    refine Frame.trans ?_ (ih _)
+    cases op with
+    | prim op => exact frame_step s op
+    | multi cs => simp only [step2, stepMulti]; exact Frame.trans (frame_calls s cs) (frame_settle _)
+
+theorem multi_disc_maxsize (d : Disc) (m : Nat) (ops : List Op2) (cs : List Call) :
+    (inside d m ops cs).disc = d ∧ (inside d m ops cs).maxsize = m := by
+  have h := Frame.trans (frame_run2 (init d m) ops) (frame_calls (after2 d m ops) cs)
+  exact ⟨h.1, h.2⟩
+
+/-- conservation, at every point of every iteration (`cs = []`: at the op boundary) -/
+theorem multi_conservation (d : Disc) (m : Nat) (ops : List Op2) (cs : List Call) :
+    (inside d m ops cs).accepted.Perm ((inside d m ops cs).delivered ++ (inside d m ops cs).items) :=
+  (multi_inv_inside d m ops cs).perm
+
+/-- the queue never holds more than maxsize items — not even between two calls of one iteration -/
+theorem multi_size_le_maxsize (d : Disc) (m : Nat) (ops : List Op2) (cs : List Call) (hm : m ≠ 0) :
+    (inside d m ops cs).items.length ≤ m := by
+  have := (multi_inv_inside d m ops cs).size
+  rw [(multi_disc_maxsize d m ops cs).2] at this
+  exact this hm
+
+theorem multi_order_fifo (m : Nat) (ops : List Op2) (cs : List Call) :
+    (inside .fifo m ops cs).accepted = (inside .fifo m ops cs).delivered ++ (inside .fifo m ops cs).items :=
+  (multi_inv_inside .fifo m ops cs).fifo (multi_disc_maxsize .fifo m ops cs).1
+
+theorem multi_order_lifo (m : Nat) (ops : List Op2) (cs : List Call) :
+    (inside .lifo m ops cs).items.Sublist (inside .lifo m ops cs).accepted :=
+  (multi_inv_inside .lifo m ops cs).sub (by rw [(multi_disc_maxsize .lifo m ops cs).1]; simp)
+
+theorem multi_order_prio (m : Nat) (ops : List Op2) (cs : List Call) :
+    (inside .prio m ops cs).items.Pairwise (· ≤ ·) ∧
+    ∀ y r, cget .prio (inside .prio m ops cs).items = some (y, r) → ∀ z ∈ r, y ≤ z := by
+  have hs := (multi_inv_inside .prio m ops cs).sorted (multi_disc_maxsize .prio m ops cs).1
+  exact ⟨hs, fun y r h => (cget_sorted h hs).2⟩
+
+/-- neither `assert` fails, whatever calls share an iteration -/
+theorem multi_no_assertion (d : Disc) (m : Nat) (ops : List Op2) :
+    ∀ o ∈ (run2 (init d m) ops).2, o.noAssertion :=
+  run2_no_assertion (inv_init d m) ops
+
+theorem multi_finished_iff (d : Disc) (m : Nat) (ops : List Op2) (cs : List Call) :
+    (inside d m ops cs).finished = true ↔ (inside d m ops cs).unfinished = 0 := by
+  rw [(multi_inv_inside d m ops cs).fin]; simp
+
+theorem multi_unfinished_eq (d : Disc) (m : Nat) (ops : List Op2) (cs : List Call) :
+    (inside d m ops cs).unfinished + (inside d m ops cs).done = (inside d m ops cs).accepted.length :=
+  (multi_inv_inside d m ops cs).count
+
+/-- at ANY point of an iteration `task_done` either raises ValueError — exactly when every accepted put has
+already been matched — or returns normally: a `task_done` that matches a put cannot fail, however often the
+unfinished count has already touched zero in this iteration and whatever stale waiters `_finished` still holds -/
+theorem multi_task_done (d : Disc) (m : Nat) (ops : List Op2) (cs : List Call) :
+    ((call (inside d m ops cs) .taskDone).2.1 = .valueError ↔
+        (inside d m ops cs).done = (inside d m ops cs).accepted.length) ∧
+    ((call (inside d m ops cs) .taskDone).2.1 = .unit ↔
+        (inside d m ops cs).done < (inside d m ops cs).accepted.length) := by
+  have h2 := multi_unfinished_eq d m ops cs
+  generalize inside d m ops cs = s at *
+  simp only [call, taskDone]
+  by_cases hz : s.unfinished = 0
+  · simp [hz]; omega
+  · simp only [hz, if_false]
+    constructor
+    · constructor
+      · intro h; split at h <;> simp at h
+      · intro h; omega
+    · constructor
+      · intro _; omega
+      · intro _; split <;> rfl
+
+/-- at any point of an iteration `join` completes at once iff every accepted put has been matched -/
+theorem multi_join_iff (d : Disc) (m : Nat) (ops : List Op2) (cs : List Call) (dl : Option Nat) :
+    ((call (inside d m ops cs) (.join dl)).2.2 = [((inside d m ops cs).futs.length, .result 0)] ↔
+        (inside d m ops cs).done = (inside d m ops cs).accepted.length) ∧
+    ((call (inside d m ops cs) (.join dl)).2.2 = [] ↔
+        (inside d m ops cs).done ≠ (inside d m ops cs).accepted.length) := by
+  have h1 := multi_finished_iff d m ops cs
+  have h2 := multi_unfinished_eq d m ops cs
+  generalize inside d m ops cs = s at *
+  simp only [call]
+  unfold join
+  by_cases hf : s.finished = true
+  · have : s.unfinished = 0 := h1.mp hf
+    simp [hf]; omega
+  · have hne : s.unfinished ≠ 0 := fun e => hf (h1.mpr e)
+    simp [hf]; omega
+
+/-- a join pending when the unfinished count reaches zero *for the second time in one iteration* is woken once and
+stays woken: the witness of the seeded change (`Event.set` must skip a waiter it has already resolved) -/
+example : (run2 (init .fifo 2) [.prim (.putNowait 1), .prim (.join none),
+      .multi [.taskDone, .putNowait 1, .taskDone], .prim .taskDone]).2.map Out2.view =
+    [([.unit], []), ([.unit], []), ([.unit, .unit, .unit], [(0, .result 0)]), ([.valueError], [])] := by decide
+
+/-- refinement for histories with compound ops: the results of all calls and the resolutions of every op are those
+of the sequential queue, where a compound op is the same calls one after the other with no expiry in between -/
+theorem multi_refines_spec (d : Disc) (m : Nat) (ops : List Op2) :
+    (run2 (init d m) ops).2.map Out2.view = (Spec.run2 (Spec.init d m) ops).2 := by
+  obtain ⟨its, _, h⟩ := run2_sim (bd_init d m) ops
+  rw [absF_init] at h
+  rw [h]
+
+theorem multi_refines_spec_state (d : Disc) (m : Nat) (ops : List Op2) :
+    ∃ its, (Spec.run2 (Spec.init d m) ops).1 = absF (after2 d m ops) its := by
+  obtain ⟨its, _, h⟩ := run2_sim (bd_init d m) ops
+  rw [absF_init] at h
+  exact ⟨its, by rw [h]⟩
 
 end TornadoModel.C35
